@@ -6,20 +6,20 @@ def add(pid, cat, text, note, technique, design):
     P[pid] = dict(cat=cat, text=text, note=note, technique=technique, design=design)
 
 add("C04", "exploration",
-    "Exhaustive enumeration of the u8/u16 sub-domain (every byte value/pair at every position and failing offset of short buffers, all five specs) plus seeded proptest search over all widths, boundary/sign patterns and offsets up to usize::MAX, judged against a shift-and-add reference; the domain is small and closed-form, so enumeration+random search is the natural level.",
+    "Exhaustive enumeration of the u8/u16 sub-domain (every byte value/pair at every position and failing offset of short buffers, all five specs) plus seeded proptest search over all widths, boundary/sign patterns and offsets up to usize::MAX, judged against a shift-and-add reference, plus reads whose window ends at or beyond byte 2^32 of a 4 GiB+64 byte buffer of lazily mapped zero pages; the domain is small and closed-form, so enumeration+random search is the natural level.",
     "Trusts the 12-line shift-and-add reference and the 64-bit little-endian host for the NativeEndian clause.",
     "exhaustive enumeration + property-based testing (proptest) against a reference implementation", "DESIGN.md §5 C04")
 
 add("C02", "exploration",
-    "Seeded proptest search over field-value assignments (boundary, top-bit, per-byte-distinct, raw) for 18 structure types x 4 encodings x fixed/run-time specs, judged against an independent ELF writer (inverse oracle) whose layout is checked against <elf.h>; the 2^16 domain of the derived one-/two-byte accessors is enumerated exhaustively. Random+boundary search is the right level: each field is decoded independently, so a wrong width/extension/mask/order shows on a large share of cases.",
+    "Seeded proptest search over field-value assignments (boundary, top-bit, per-byte-distinct, raw) for 18 structure types x 4 encodings x fixed/run-time specs, judged against an independent ELF writer (inverse oracle) whose layout is checked against <elf.h>; the 2^16 domain of the derived one-/two-byte accessors is enumerated exhaustively; further sub-checks decode note headers through NoteIterator (the crate's NoteHeader is private), the crate-private version link fields through where the iterators go, and the packed version index at its use site (get_requirement/get_definition with the hidden bit). Random+boundary search is the right level: each field is decoded independently, so a wrong width/extension/mask/order shows on a large share of cases.",
     "Trusts the writer (cross-checked field by field against glibc <elf.h> offsets at start-up) and the ABI macro transcriptions (ELF32_R_*, ELF64_R_*, ELF_ST_*).",
     "property-based testing (proptest) with an inverse (encoder) oracle + exhaustive enumeration of 2^16 accessor inputs", "DESIGN.md §5 C02")
 add("C09", "exploration",
-    "Seeded proptest search over (entry type, class, order, n<=40 writer-encoded entries, ragged tails of every residue, access scripts incl. indices at len, len+1 and near usize::MAX whose byte offset wraps, interleaved iterators); model oracle len=floor(bytes/ABI entsize).",
+    "Seeded proptest search over (entry type, class, order, n<=40 writer-encoded entries, ragged tails of every residue, access scripts incl. indices at len, len+1, k*2^32+i and near usize::MAX whose byte offset wraps, interleaved iterators, and the provided Iterator methods nth/skip/step_by/count/last/fuse on fresh and partly consumed iterators); model oracle len=floor(bytes/ABI entsize).",
     "Trusts the ABI entry sizes (from <elf.h>) and the writer.",
     "model-based property testing (proptest): access scripts against a floor(len/entsize) model and encoder ground truth", "DESIGN.md §5 C09")
 add("C15", "exploration",
-    "Exhaustive enumeration of every table of length 0..7 over {NUL,'a',0xC3,0xA9} at every offset 0..len+2 (233k lookups) plus seeded proptest search over tables up to 4 KiB with offsets at len-1, len, len+1, boundary values and usize::MAX, against a NUL-scan reference, including pointer identity of the returned slice.",
+    "Exhaustive enumeration of every table of length 0..7 over {NUL,'a',0xC3,0xA9} at every offset 0..len+2 (233k lookups) plus seeded proptest search over tables up to 4 KiB (4%: up to 200 KiB with NUL-free runs of 4 096 / 65 535+ bytes) with offsets at len-1, len, len+1, k*2^32+i, boundary values and usize::MAX, against a NUL-scan reference, including pointer identity of the returned slice.",
     "Trusts the NUL-scan reference and core::str::from_utf8.",
     "exhaustive enumeration + property-based testing (proptest) against a reference implementation", "DESIGN.md §5 C15")
 
@@ -41,7 +41,7 @@ add("C14", "exploration",
     "property-based testing (proptest) against a reference implementation (note walker)", "DESIGN.md §5 C14")
 
 add("C19", "exploration",
-    "Exhaustive enumeration of finite domains against differential references: all ~1175 exported integer constants (extracted from src/abi.rs by build.rs) vs a table derived from glibc <elf.h>, Linux uapi headers and LLVM 14 BinaryFormat with the C/C++ compiler evaluating the macros; size_of/offset_of! of every field of the 16 #[repr(C)] structs vs offsetof on <elf.h>; every to_str helper over u8/u16 exhaustively and over all constant values, neighbours and pseudo-random values for u32/i64. Enumeration is the right level because the domains are finite lists.",
+    "Exhaustive enumeration of finite domains against differential references: all ~1175 exported integer constants (extracted from src/abi.rs by build.rs) vs a table derived from glibc <elf.h>, Linux uapi headers and LLVM 14 BinaryFormat with the C/C++ compiler evaluating the macros; size_of/offset_of! of every field of the 16 #[repr(C)] structs vs offsetof on <elf.h>; every to_str helper over u8/u16 AND u32 exhaustively (4 x 2^32 calls in 3-4 s) and, for i64, over all constant values, their neighbours, negations, high-word variants and pseudo-random values; p_flags_to_string's numeric fallback. Enumeration is the right level because the domains are finite lists.",
     "Trusts the installed reference headers (names on which they disagree or which none defines are counted, not judged) and a 9-entry spelling alias table.",
     "exhaustive enumeration with a differential oracle (reference headers evaluated by the C compiler)", "DESIGN.md §5 C19")
 
@@ -55,7 +55,7 @@ add("C06", "exploration",
     "property-based testing (proptest) with an allocation-counting monitor; exhaustive configuration enumeration with the compiler as oracle", "DESIGN.md §5 C06")
 
 add("C16", "exploration",
-    "Seeded proptest search over adversarial link structures built on purpose (SysV chain cycles of every length, GNU chains without stop bit, version records with zero/self/overlapping/out-of-range links and absurd counts, partial trailing records) and over the corrupted-file domain with every iterator driven to bound+1 items; oracle = item-count bounds (one item per input byte, at most the declared count) plus a per-case watchdog (15 s / 60 s) whose expiry is the violation. The thorough tier adds a libFuzzer campaign with -timeout.",
+    "Seeded proptest search over adversarial link structures built on purpose (SysV chain cycles of every length, GNU chains without stop bit, version records with zero/self/overlapping/out-of-range/32-bit-wrapping links and absurd counts, partial trailing records, iterator adaptors on advanced iterators, Debug formatting of cyclic tables) and over the corrupted-file domain with every iterator driven to bound+1 items; oracle = item-count bounds (one item per input byte, at most the declared count) plus a per-case watchdog (15 s / 60 s) whose expiry is the violation. The thorough tier adds a libFuzzer campaign with -timeout.",
     "Liveness-flavoured property decided by a watchdog: a hang is detected, termination is not proved; limits sit far above the worst legitimate walk on the generated sizes.",
     "property-based testing (proptest) with item-count invariants and a hang watchdog; coverage-guided fuzzing (libFuzzer) in the thorough tier", "DESIGN.md §5 C16")
 
@@ -64,12 +64,12 @@ add("C10", "exploration",
     "Combinations with more than one defect are skipped (counted); little-endian host for the NativeEndian clause.",
     "exhaustive enumeration with an expected-error oracle + differential property-based testing (proptest) AnyEndian vs fixed spec", "DESIGN.md §5 C10")
 add("C18", "fault_enumeration",
-    "Crash points = prefix lengths: for every generated base file (seeded proptest choice sequences; tables placed early so most prefixes still open) EVERY prefix length is enumerated for files up to 4 KiB (256 boundary+random lengths above), both parsers; metamorphic oracle: each Ok answer of the fixed query plan on the prefix equals the complete file's answer, and appending arbitrary bytes changes no Ok answer. The 10 linker-produced samples are covered with sampled lengths.",
+    "Crash points = prefix lengths: for every generated base file (seeded proptest choice sequences; tables placed early so most prefixes still open) EVERY prefix length is enumerated for files up to 4 KiB (256 boundary+random lengths above), both parsers; metamorphic oracle: each Ok answer of the fixed query plan on the prefix equals the complete file's answer (also parse_ident on every prefix of the first 20 bytes), and appending arbitrary bytes changes no Ok answer; a sixth of the base files use extended numbering or declare a record-structured section smaller than its body. The 10 linker-produced samples are covered with sampled lengths.",
     "Digests compare content, not error kinds; the extension clause is checked in its sound direction only.",
     "crash-point (prefix) enumeration over property-based generated files with a metamorphic oracle (prefix/extension vs whole file)", "DESIGN.md §5 C18")
 
 add("C03", "exploration",
-    "Seeded proptest search over generated files whose section/segment ranges are drawn from boundary pairs (inside, zero-length at 0/mid/EOF/EOF+1, ending at EOF-1/EOF/EOF+1, far outside, overflowing, sharing endpoints, whole file, raw 64-bit), p_memsz != p_filesz always, NOBITS/compressed flags on arbitrary ranges, fabricated headers; the ground truth is the builder's header values; every returned &[u8]/&str is checked by pointer and length against the designated range.",
+    "Seeded proptest search over generated files whose section/segment ranges are drawn from boundary pairs (inside, zero-length at 0/mid/EOF/EOF+1, ending at EOF-1/EOF/EOF+1, far outside, overflowing, sharing endpoints, whole file, raw 64-bit), p_memsz != p_filesz always, NOBITS/compressed flags on arbitrary ranges, fabricated headers; the ground truth is the builder's header values; every returned &[u8]/&str (section/segment data, compressed payloads, string-table entries incl. compressed string tables, note names/descriptors/build-ids, section names, symbol names, version requirement/definition strings) is checked by pointer and length against the designated range.",
     "Trusts the file builder's ground truth and the NUL-scan / note reference walkers for sub-ranges.",
     "property-based testing (proptest) with an inverse oracle (file builder ground truth) and pointer-identity checks", "DESIGN.md §5 C03")
 add("C05", "exploration",
@@ -82,15 +82,15 @@ add("C20", "exploration",
     "differential property-based testing (proptest) between alternative access paths, with encoder ground truth", "DESIGN.md §5 C20")
 
 add("C07", "exploration",
-    "Seeded proptest search over (file bytes: generated/corrupted/sample/raw) x (operation histories of up to 40 stream calls with repetition, incl. fabricated headers whose ranges share a start or an end and recur) x (readers delivering 1..n-byte chunks and Interrupted errors); differential oracle = the slice parser on the same bytes (open coincidence, identical headers, per-op digest equality, exact Ok/Err coincidence for the calls the statement lists, every earlier op re-asked at random). The thorough tier adds a libFuzzer campaign over the same oracle.",
+    "Seeded proptest search over (file bytes: generated/corrupted/sample/raw) x (operation histories of up to 40 stream calls with repetition, incl. fabricated headers whose ranges share a start or an end and recur) x (readers delivering 1..n-byte chunks and Interrupted errors, handed over with the cursor at 0 or elsewhere, in a fifth of the cases failing once with a transient hard error); differential oracle = the slice parser on the same bytes (open coincidence, identical headers, per-op digest equality, exact Ok/Err coincidence for the calls the statement lists, every earlier op re-asked at random). The thorough tier adds a libFuzzer campaign over the same oracle.",
     "Scope exactly as the statement: ops on SHF_COMPRESSED sections and files with a present-but-empty section table are skipped and counted.",
     "differential, history-based property testing (proptest; ops as vec + interpreter) stream parser vs slice parser; libFuzzer in the thorough tier", "DESIGN.md §5 C07")
 add("C08", "exploration",
-    "Seeded proptest search over stream contents whose headers claim sizes/counts/offsets from the boundary table (small files claiming up to 2^64-1) and layouts with up to 1 MiB of padding, x call histories; validity monitors: no panic, counting allocator window (every single request <= 8*len+4096; absurd requests park the thread and fail the case), instrumented Read+Seek log (bytes read by open within {ident, header, shdr[0], tables}; by each call within the ranges it designates).",
+    "Seeded proptest search over stream contents whose headers claim sizes/counts/offsets from the boundary table (small files claiming up to 2^64-1) and layouts with up to 1 MiB of padding, x call histories of up to 40 (8%: 60-150) calls, x chunking/interrupting readers (a fifth failing once with a transient error); validity monitors: no panic, counting allocator window (every single request <= 8*len+4096 (+64 bytes per call made, for the cache's own bookkeeping of caller-chosen ranges); absurd requests park the thread and fail the case), instrumented Read+Seek log (bytes read by open within {ident, header, shdr[0], tables}; by each call within the ranges it designates).",
     "Trusts the allocator shim and the independent header reader that computes the designated ranges; the version-query allowance is an over-approximation (all version sections).",
     "property-based testing (proptest) with resource monitors (allocation-size bound, read-log containment)", "DESIGN.md §5 C08")
 add("C17", "fault_enumeration",
-    "For each generated base case (file x call history x reader behaviour) the fault-free run counts the I/O calls, then a fault is injected at EVERY single I/O call index for each of error/premature-EOF x transient/permanent (exhaustive single-fault enumeration), plus random multi-fault schedules with short reads; metamorphic oracle = the fault-free run: the call during which a fault fired returns Err, every other call returns Err or the fault-free answer.",
+    "For each generated base case (file x call history x reader behaviour) the fault-free run counts the I/O calls, then a fault is injected at EVERY single I/O call index for each of error/premature-EOF x transient/permanent plus one error of another io::ErrorKind (Unsupported, WouldBlock, UnexpectedEof, TimedOut, ...) per index (exhaustive single-fault enumeration), plus random multi-fault schedules with short reads; metamorphic oracle = the fault-free run: the call during which a fault fired returns Err, every other call returns Err or the fault-free answer.",
     "Trusts the fault-injecting reader; Interrupted and short reads are legal behaviour, not failures.",
     "exhaustive single-fault injection over property-based generated histories, metamorphic oracle (fault-free run)", "DESIGN.md §5 C17")
 
